@@ -351,6 +351,14 @@ def run_trace(case, R):
             if i == 0:
                 if qf is not None:
                     R.check('C08.estep', bool((np.asarray(qf) == 1).all()), f'estep/{kind}/initial-quadratic-form', 'first M-step must use quadratic forms equal to one')
+                if s.init is not None and not aligned:
+                    # the first M-step weights the observations with the start itself (only E-step posteriors are clipped / masked)
+                    a0 = np.asarray(e['affiliation'], dtype=float)
+                    i0 = np.broadcast_to(np.asarray(s.init, dtype=float), a0.shape)
+                    if s.mask is not None:
+                        i0 = i0 * np.broadcast_to(s.mask, a0.shape)
+                    d0 = float(np.abs(a0 - i0).max())
+                    R.check('C08.mstep', d0 <= (1e-6 if single else 1e-15), f'mstep/{kind}/start-altered', f'the first M-step does not use the given initial affiliation as its weights (max dev {d0:.3e})', dev=d0, eps=eps)
                 continue
             prev = ev[i - 1]['model']
             if (np.asarray(prev.weight, dtype=float) == 0).any():
